@@ -811,8 +811,11 @@ public:
      */
     inline void absorb(const char *str)
     {
-        if (str)
-            ::ascon_xofa_absorb(&m_state, str, ::strlen(str));
+        if (str) {
+            ::ascon_xofa_absorb
+                (&m_state, reinterpret_cast<const unsigned char *>(str),
+                 ::strlen(str));
+        }
     }
 
     /**
@@ -889,7 +892,9 @@ public:
      */
     inline void absorb(const std::string& str)
     {
-        ::ascon_xofa_absorb(&m_state, str.data(), str.size());
+        ::ascon_xofa_absorb
+            (&m_state, reinterpret_cast<const unsigned char *>(str.data()),
+             str.size());
     }
 
 #elif defined(ARDUINO)
